@@ -308,11 +308,35 @@ class PList:
     return self._run(ev, fn)
 
   def pop(self, *a):
+    if a and a[0] != -1:
+      raise NotImplementedError('PList.pop(index)')
     ev = Event(self._pname, 'pop_top', None)
     def fn():
       ev.writes = {'top': None}
-      return self._real.pop(*a)
+      r = self._real.pop()
+      ev.obs = tok(r)              # the popped value may steer the thread
+      return r
     return self._run(ev, fn)
+
+  def __delitem__(self, idx):
+    if not (isinstance(idx, slice) and idx.stop is None and idx.step is None and
+            isinstance(idx.start, int) and idx.start >= 0):
+      raise NotImplementedError('PList.__delitem__(%r)' % (idx,))
+    ev = Event(self._pname, 'truncate', repr(idx.start))
+    def fn():
+      ev.writes = {'len': idx.start}
+      del self._real[idx]
+    return self._run(ev, fn)
+
+  def __setitem__(self, idx, value):
+    raise NotImplementedError('PList.__setitem__')
+
+  def extend(self, xs):
+    for x in xs:
+      self.append(x)
+
+  def clear(self):
+    del self[0:]
 
   def __getitem__(self, idx):
     if isinstance(idx, slice):
@@ -338,6 +362,19 @@ class PList:
 _PLISTS = {}
 
 
+def _is_data_attr(obj, cls, name, value, base_get, had):
+  """True when `value` is stored under `name` on the instance (per thread for a
+  threading.local) or on the class - not computed by a property."""
+  for k in cls.__mro__:
+    if vars(k).get(name) is value:
+      return True
+  try:
+    d = base_get(obj, '__dict__') if had is None else had(obj, '__dict__')
+  except Exception:
+    return False
+  return d.get(name) is value
+
+
 def tap_instance_lists(cls, attr_names):
   """Makes reads of the named list attributes on instances of `cls` return PList
   views named after the identity of the list the reading thread actually got -
@@ -351,7 +388,8 @@ def tap_instance_lists(cls, attr_names):
 
   def tapped(self, name):
     v = base_get(self, name) if had is None else had(self, name)
-    if name in attr_names and type(v) is list and CTL.mode != 'off' and CTL.me() is not None:
+    if (type(v) is list and not name.startswith('__') and CTL.mode != 'off' and CTL.me() is not None
+        and _is_data_attr(self, cls, name, v, base_get, had)):
       key = id(v)
       p = _PLISTS.get(key)
       if p is None or p._real is not v:
